@@ -178,3 +178,9 @@ Proof.
       apply IH; [rewrite app_length; cbn; lia|exact Hf']. }
   exact (G [] views 0%nat eq_refl Hv).
 Qed.
+
+(* what the handlers read: responseWriter.Internal() / RemoteIP(), as translated from the source now, hand back the two
+   fields Reset stored and nothing else (no second look at the address, no loopback shortcut) *)
+Lemma writer_getters w :
+  go_responseWriter_Internal w = T_responseWriter_internal w /\ go_responseWriter_RemoteIP w = T_responseWriter_remoteip w.
+Proof. split; reflexivity. Qed.
